@@ -11,7 +11,7 @@ use crate::engine::selstate::{SelCase, SelOp, World, strategy};
 use crate::rt::{CheckResult, Ctx, Obs};
 
 /// Everything a routing decision must leave untouched.
-fn projection(c: &SrtlaConnection) -> String {
+pub fn projection(c: &SrtlaConnection) -> String {
     let mut log: Vec<(i32, u64)> = c.packet_log.iter().map(|(k, v)| (*k, *v)).collect();
     log.sort();
     format!(
